@@ -136,6 +136,23 @@ func runC11(c *core.Ctx) {
 			}
 		}
 	}
+	// a streaming write that spans the Close: Close completes between two chunks of one ReadFrom / reader message
+	si := 0
+	for _, md := range modes {
+		for ai, arg := range c11Args {
+			for _, via := range []string{"ReadFrom", "Write(io.Reader)"} {
+				si++
+				if !c.Mine(si) {
+					continue
+				}
+				id := fmt.Sprintf("span/%s/q%d/%s/%s", md.m, md.q, arg.name, via)
+				if !c.Case(id) {
+					continue
+				}
+				c11Span(c, id, md.m, md.q, arg.name, arg.err, via, ai)
+			}
+		}
+	}
 	// concurrent variant
 	total := c.Scale(400, 6000)
 	for t := 0; t < total; t++ {
@@ -389,3 +406,66 @@ func c11Concurrent(c *core.Ctx, id string, m mon.Mode, q int, argName string, ar
 
 var _ net.Error = tmoErr{}
 var _ = wl.SafeErr
+
+// closingReader delivers chunk 1, then closes the channel from inside its second Read (so Close has
+// returned before the second chunk is handed on), then delivers chunk 2 and EOF.
+type closingReader struct {
+	ch      netty.Channel
+	arg     error
+	n       int
+	closeAt uint64
+}
+
+func (r *closingReader) Read(p []byte) (int, error) {
+	r.n++
+	switch r.n {
+	case 1:
+		return copy(p, mon.Payload(30, 1, 600)), nil
+	case 2:
+		r.ch.Close(r.arg)
+		r.closeAt = mon.Tick()
+		return copy(p, mon.Payload(30, 2, 600)), nil
+	}
+	return 0, io.EOF
+}
+
+func c11Span(c *core.Ctx, id string, m mon.Mode, q int, argName string, arg error, via string, salt int) {
+	tr := mon.NewRecTransport()
+	tr.AcceptAfterClose = true // a transport that does not refuse by itself: the channel must
+	rig := mon.NewRig(mon.RigOpts{Mode: m, Queue: q, QuietTail: true, Tr: tr})
+	defer rig.Dispose()
+	rd := &closingReader{ch: rig.Ch, arg: arg}
+	done := make(chan error, 1)
+	go func() {
+		defer func() {
+			if r := recover(); r != nil {
+				done <- fmt.Errorf("panic: %v", r)
+			}
+		}()
+		if via == "ReadFrom" {
+			_, err := rig.Ch.ReadFrom(rd)
+			done <- err
+		} else {
+			done <- rig.Ch.Write(rd)
+		}
+	}()
+	select {
+	case <-done:
+	case <-time.After(15 * time.Second):
+		c.Inconclusive(id, "watchdog: spanning write did not return")
+		return
+	}
+	rig.Ex.WaitOutstanding(0, 10*time.Second)
+	c.Count("spanning_writes", 1)
+	c.Count("calls_after_close", 1)
+	c.Sig("span", m, q, argName, via)
+	ops, _ := rig.T.Snapshot()
+	for _, o := range ops {
+		if (o.Kind == mon.OpWrite || o.Kind == mon.OpWritev) && o.AfterClose && !o.Rejected && len(o.Data) > 0 && rd.closeAt != 0 && o.In > rd.closeAt {
+			c.Violation(fmt.Sprintf("C11:bytes-accepted-after-close:%s-spanning-close:%s", via, modeClass(m)), id,
+				fmt.Sprintf("a %s whose reader needed several reads kept writing after Close(%s) had returned in between: %d bytes were handed to (and accepted by) the transport after the close; mode=%s Q=%d", via, argName, len(o.Data), m, q),
+				map[string]interface{}{"ops": mon.OpString(ops)})
+			return
+		}
+	}
+}
